@@ -199,6 +199,57 @@ theorem handshake_closed {n w : Nat} {t : Table} (h : StdForm n w t)
   rw [this]
   simp [Nat.mul_comm]
 
+/-- **the specification determines the answer up to the numbering of the edges**: any output
+    meeting `Spec` lists (as unordered pairs) a permutation of the model's edges, has the same
+    corner counts, and each real slot of its face-edge table points at the same boundary segment
+    as the model's.  (This is what justifies comparing implementation and model after
+    canonicalising the edge numbering.) -/
+theorem spec_unique {n w : Nat} {t : Table} (h : StdForm n w t) (o : Out) (hs : Spec t w o) :
+    (o.edges.map sortPair).Perm (edges t) ∧ o.nPerFace = nNodesPerFace t ∧
+    ∀ f, f < t.length → ∀ j, j < (faceOf (rowAt t f)).length →
+      ∃ s, (rowSegs (rowAt t f))[j]? = some s ∧
+        (∃ e ∈ getI? o.edges (entry (rowAt o.faceEdges f) j), sortPair e = s) ∧
+        (∃ e ∈ getI? (edges t) (entry (rowAt (faceEdges t) f) j), sortPair e = s) := by
+  obtain ⟨hsound, hcompl, honce, hfe, hN⟩ := hs
+  have monce := edges_once h
+  have mfe := faceEdges_ok h
+  have mN := nPerFace_ok h
+  refine ⟨?_, ?_, ?_⟩
+  · -- two duplicate-free lists with the same members
+    have hnd2 : (edges t).Nodup := by
+      have := monce; unfold EdgesOnce at this; rwa [edges_map_sortPair h] at this
+    apply (List.perm_ext_iff_of_nodup honce hnd2).mpr
+    intro p
+    constructor
+    · intro hp
+      obtain ⟨e, he, rfl⟩ := List.mem_map.mp hp
+      obtain ⟨_, _, r, hr, hseg⟩ := hsound e he
+      exact seg_is_edge h r hr _ hseg
+    · intro hp
+      obtain ⟨r, hr, hseg⟩ := edge_is_seg h p hp
+      exact hcompl r hr p hseg
+  · unfold NPerFaceOK at hN mN
+    rw [hN]; exact mN.symm
+  · intro f hf j hj
+    have hjw : j < w := by
+      have hr : rowAt t f ∈ t := by
+        simp [rowAt, List.getD, List.getElem?_eq_getElem hf]
+      have hstd := h _ hr
+      have := length_takeWhile_le' (fun x => x != FILL) (rowAt t f)
+      have hl := hstd.1
+      unfold faceOf at hj; omega
+    have h1 := (hfe.2 f hf).2 j hjw
+    have h2 := (mfe.2 f hf).2 j hjw
+    rw [if_pos hj] at h1 h2
+    obtain ⟨s1, hs1, e1, he1, hse1⟩ := h1
+    obtain ⟨s2, hs2, e2, he2, hse2⟩ := h2
+    have : s1 = s2 := by
+      have a := Option.mem_def.mp hs1
+      have b := Option.mem_def.mp hs2
+      rw [a] at b; exact Option.some.inj b
+    subst this
+    exact ⟨s1, Option.mem_def.mp hs1, ⟨e1, he1, hse1⟩, ⟨e2, he2, hse2⟩⟩
+
 /-! ### the padded form of any mesh is standard, so the hypothesis is satisfiable for every
     mesh whose faces have between 1 and `w` corners with indices below `n` -/
 
